@@ -315,7 +315,37 @@ def part_findings(chk):
     chk.extra["findings_replayed"] = {"pretext": r, "pullin": r1, "consecutive": r2}
 
 
+# ---------------------------------------------------------------- E. pattern fingerprints
+FINGERPRINTS = {
+    "utils.META_RE": ('^[ ]{0,3}(?P<key>[A-Za-z0-9_-]+):\\s*(?P<value>.*)', 32),
+    "utils.META_MORE_RE": ('^[ ]{4,}(?P<value>.*)', 32),
+    "utils.BEGIN_RE": ('^-{3}(\\s.*)?', 32),
+    "utils.END_RE": ('^(-{3}|\\.{3})(\\s.*)?', 32),
+    "md_admonition.ADMONITION_RE": ('(?P<indent>\\s*)\n        @(?P<type>note|warning|todo|bug|history)\n        '
+                                    '(?P<posttxt>.*)\n        ', 98),
+    "md_admonition.END_RE": ('\\s*@end(?P<type>note|warning|todo|bug|history)\n        \\s*(?P<posttxt>.*)?', 98),
+}
+
+
+def part_fingerprints(chk):
+    """The recognisers of Doc/Meta.v and Doc/Admon.v were written for these pattern texts and flags; an edited
+    pattern is a broken obligation (the differential runs above are the search for a failing input)."""
+    import ford.utils as u
+    import ford.md_admonition as m
+    cur = {"utils.META_RE": u.META_RE, "utils.META_MORE_RE": u.META_MORE_RE, "utils.BEGIN_RE": u.BEGIN_RE,
+           "utils.END_RE": u.END_RE, "md_admonition.ADMONITION_RE": m.AdmonitionPreprocessor.ADMONITION_RE,
+           "md_admonition.END_RE": m.AdmonitionPreprocessor.END_RE}
+    for name, (pat, flags) in FINGERPRINTS.items():
+        r = cur[name]
+        ok = r.pattern == pat and int(r.flags) == flags
+        chk.obligation("fingerprint:" + name, ok, "" if ok else f"now {r.pattern!r} flags={int(r.flags)}")
+    ok = list(m.ADMONITION_TYPE) == G.TYPES and m.AdmonitionPreprocessor.INDENT == "    "
+    chk.obligation("fingerprint:md_admonition.ADMONITION_TYPE/INDENT", ok,
+                   "" if ok else f"now {list(m.ADMONITION_TYPE)!r} / {m.AdmonitionPreprocessor.INDENT!r}")
+
+
 def run_part(chk):
+    part_fingerprints(chk)
     part_admon(chk)
     part_meta(chk)
     part_e2e(chk)
